@@ -19,6 +19,7 @@ CONSTANTS
   MaxOther = 0
   FirstCfgs = {0}
   StartCfgs = {0, 1}
+  PostReload = FALSE
   CfgKinds = {"value"}
   Vias = {"set", "write"}
 CONSTRAINT Bound
